@@ -17,7 +17,7 @@ import (
 
 func init() {
 	props["C11"] = &propDef{
-		rule: "cases = (a) examples/segmenter binary on generated progressive files (harness/progfile.go and c10_gen.go: one video + optional audio in either order, and 1..3-track files for the multiplexed mode) and the repository's progressive files x modes {one file per track, lazy, multiplexed, multiplexed+lazy} x segment durations {1 ms, around every sync point, random, longer than the file}; (b) examples/resegmenter binary on fragmented single-track files built with the library API (1..5 segments x 1..4 fragments, one or two sample runs per fragment, with/without styp, trun optimisation on/off, values taken from trex defaults, zero/non-zero start time) and on the segmenter's own output x new durations in ticks {1, around sync samples' presentation times, random, beyond the end}; (c) mp4.MediaSegment.Fragmentify through the API on the same segments x fragment durations x {trex, nil}; (d) examples/combine-segs binary on pairs of single-track single-fragment segments (library-built, and the segmenter's per-track output) that carry all values explicitly; outputs are expanded with the library's Fragment.GetFullSamples per fragment with the output init's trex boxes and the concatenated per-track sequence is compared with the input's (count, bytes, durations, flags, composition offsets, decode times; first sample of every segment is a sync sample of the reference track); non-trivial = distinct case in which the tool/API succeeded",
+		rule: "cases = (a) examples/segmenter binary on generated progressive files (harness/progfile.go and c10_gen.go: one video + optional audio in either order, and 1..3-track files for the multiplexed mode) and the repository's progressive files x modes {one file per track, lazy, multiplexed, multiplexed+lazy} x segment durations {1 ms, around every sync point, random, longer than the file}; (b) examples/resegmenter binary on fragmented single-track files built with the library API (1..5 segments x 1..4 fragments, one or two sample runs per fragment, with/without styp, trun optimisation on/off, values taken from trex defaults, zero/non-zero start time) and on the segmenter's own output x new durations in ticks {1, around sync samples' presentation times, random, beyond the end}; (c) mp4.MediaSegment.Fragmentify through the API on the same segments x fragment durations x {trex, nil}; (d) examples/combine-segs binary on pairs of single-track single-fragment segments (library-built, four fifths carrying all values explicitly and one fifth possibly relying on trex defaults, and the segmenter's per-track output); outputs are expanded with the library's Fragment.GetFullSamples per fragment with the output init's trex boxes and the concatenated per-track sequence is compared with the input's (count, bytes, durations, flags, composition offsets, decode times; first sample of every segment is a sync sample of the reference track); non-trivial = distinct case in which the tool/API succeeded",
 		gen:  genC11,
 		exec: execC11,
 	}
@@ -183,8 +183,15 @@ func (o *outExpanded) summary() string {
 }
 
 // compareTrack: the direct oracle for one track. tool names the fingerprint family.
+// c11OneFingerprint: when set, compareTrack reports every difference under this fingerprint
+var c11OneFingerprint string
+
 func compareTrack(c *Ctx, tool, req, label string, tr *ttrack, got []mp4.FullSample) bool {
 	fail := func(kind, what, g, e string) {
+		if c11OneFingerprint != "" { // a recorded class of inputs: one fingerprint for whatever field is lost
+			c.Fail(c11OneFingerprint, label+": "+what+" ["+kind+"]", req, clip(g), clip(e))
+			return
+		}
 		c.Fail("C11-"+tool+"-"+kind, label+": "+what, req, clip(g), clip(e))
 	}
 	n := len(tr.samples)
@@ -268,7 +275,10 @@ type ffTrack struct {
 	multiTrun    bool // fragments with >= 2 samples carry them in two truns
 }
 
-func genFFTrack(r *rand.Rand, media string, oneFrag bool) *ffTrack {
+// keepTrex: with oneFrag, keep the randomly chosen trex mode (values carried by trex defaults) instead of forcing
+// every value into the segment (spec "ff <seed> <media> 2")
+func genFFTrack(r *rand.Rand, media string, oneFrag bool, keepTrex ...bool) *ffTrack {
+	ffKeepTrex := len(keepTrex) > 0 && keepTrex[0]
 	t := &ffTrack{media: media}
 	if media == "video" {
 		t.timescale = []uint32{90000, 25000, 12800, 600}[r.Intn(4)]
@@ -289,7 +299,9 @@ func genFFTrack(r *rand.Rand, media string, oneFrag bool) *ffTrack {
 	if oneFrag {
 		// combine-segs input: one segment, one fragment, every value carried by the segment itself
 		nseg = 1
-		t.trexMode = 0
+		if !ffKeepTrex {
+			t.trexMode = 0
+		}
 	}
 	irregular := r.Intn(3) == 0
 	gop := 1 + r.Intn(8)
@@ -469,7 +481,7 @@ func ffFromSpec(f []string) (*ffTrack, int, error) {
 		return nil, 0, fmt.Errorf("bad ff spec")
 	}
 	seed, _ := strconv.ParseInt(f[1], 10, 64)
-	return genFFTrack(rand.New(rand.NewSource(seed)), f[2], f[3] == "1"), 4, nil
+	return genFFTrack(rand.New(rand.NewSource(seed)), f[2], f[3] == "1" || f[3] == "2", f[3] == "2"), 4, nil
 }
 
 // ---------- segmenter
@@ -1375,13 +1387,18 @@ func genC11(c *Ctx) {
 		oe             *outExpanded
 		err            error
 		skip           bool
+		trexInput      bool
 	}
 	var cjobs []*cj
 	for i := 0; i < nComb; i++ {
 		sa, sb := strconv.FormatInt(r.Int63(), 10), strconv.FormatInt(r.Int63(), 10)
 		ma := []string{"video", "video", "audio"}[r.Intn(3)]
 		mb := []string{"audio", "audio", "video"}[r.Intn(3)]
-		spec := []string{"ff", sa, ma, "1", "ff", sb, mb, "1"}
+		of := "1"
+		if i%5 == 4 {
+			of = "2" // inputs that may carry values in their trex boxes
+		}
+		spec := []string{"ff", sa, ma, of, "ff", sb, mb, of}
 		j := &cj{req: "combine " + strings.Join(spec, " ")}
 		var err error
 		j.ia, j.sa, j.ib, j.sb, j.ta, j.tb, err = combineInputFromSpec(spec)
@@ -1392,8 +1409,10 @@ func genC11(c *Ctx) {
 		a, _, _ := ffFromSpec(spec[0:4])
 		b, _, _ := ffFromSpec(spec[4:8])
 		if a.reliesOnTrex || b.reliesOnTrex {
-			c.Count("combine-segs input skipped: relies on trex defaults (documented limitation)")
-			continue
+			// the tool used to expand its inputs without their trex boxes, losing values carried only by trex
+			// (fixed; see known-findings C11-combine-trex-defaults): differences on such inputs get that fingerprint.
+			c.Count("combine-segs input: relies on trex defaults")
+			j.trexInput = true
 		}
 		a.describe(c, "combine")
 		b.describe(c, "combine")
@@ -1420,7 +1439,11 @@ func genC11(c *Ctx) {
 			j.tr, j.oe, j.err = runCombine(dir, j.ia, j.sa, j.ib, j.sb)
 		})
 		for _, j := range cjobs {
+			if j.trexInput {
+				c11OneFingerprint = "C11-combine-trex-defaults"
+			}
 			checkCombine(c, j.req, j.ta, j.tb, j.tr, j.oe, j.err)
+			c11OneFingerprint = ""
 			if len(c.St.Samples) < 8 && j.tr.exit == 0 {
 				c.Sample(j.req)
 			}
